@@ -139,10 +139,10 @@ theorem covered_cfg0 (k : CC) : covered (ign 0) k = (match k with | .bracket _ =
 theorem covered_cfg7 (k : CC) : covered (ign 7) k = (k == .tok) := by
   cases k <;> rfl
 
-/-- consistency with `retained_concat` (setting 0): on accepted texts the two descriptions of the expected text agree -/
-theorem erase_cfg0_roundBrackets (raw : List Char) (ts : List Tok) (h : lex (cfgOf 0) raw = .ok ts) :
-    erase (ign 0) ((cfgOf 0).pre raw) = roundBrackets ((cfgOf 0).pre raw) := by
-  rw [← retained_all 0 raw ts h, retained_concat raw ts h]
+/-- consistency with `retained_concat` (setting 0): with nothing ignored the erasure is `roundBrackets`, for EVERY
+text (so `retained_concat` is the instance `i = 0` of `retained_all`) -/
+theorem erase_cfg0_roundBrackets (text : List Char) : erase (ign 0) text = roundBrackets text :=
+  erase_none_roundBrackets text
 
 /-! ## group rendering -/
 
